@@ -169,7 +169,8 @@ func allMenus() map[string][]snip {
 		mkT("(find-collection cid)", call("find-collection", eID(idC1))), mkT("(take ints -2)", call("take", ints, eI(-2))),
 		mkT("(map ints first)", call("map", ints, sym("first"))), mkT("(filter ints {x -> 1})", call("filter", ints, lamConst)),
 		mkT("{/w/10: (find-feature /w/10)}", call("collection", call("pair", eID(idW10), ffW10))),
-		mkT("(find-collection cid(absent))", call("find-collection", eID(idC99)))}
+		mkT("(find-collection cid(absent))", call("find-collection", eID(idC99))),
+		mkT("{{1: 2}: 1}", eColl(b6.ArrayCollection[any, any]{Keys: []any{1}, Values: []any{2}}.Collection(), 1))}
 	m["change"] = []snip{mk("(add-tag /n/5 k=v)", addTagN5), mk("(add-tag /n/99 k=v)", call("add-tag", eID(idN99), eT("k", "v"))),
 		mk("(merge-changes {})", call("merge-changes", empty)), mk(`(remove-tag /n/5 "name")`, call("remove-tag", eID(idN5), eS("name"))),
 		mkT("(add-point ll new-id {})", call("add-point", llIn, eID(idNewP), empty)),
